@@ -59,7 +59,7 @@ def confirm(src, pid, name):
         # demos were written against the agent's own worktree path
         import re
 
-        text = re.sub(r'/tmp/wt/C\d\d', wt, text)
+        text = re.sub(r'/tmp/wt/[CD]\d\d', wt, text)
         open(d, 'wt', encoding='utf-8').write(text)
         base = passing(wt)
         rc0, o0 = demo(wt, d)
